@@ -9,6 +9,8 @@ EM0 = OBJECT('hotxlfp.tinyemitter:Emitter', _e=DDICT(other=LISTN(L)))
 EM1 = OBJECT('hotxlfp.tinyemitter:Emitter', _e=DDICT(ev=LISTN(L), other=LISTN(L)))
 EM2 = OBJECT('hotxlfp.tinyemitter:Emitter', _e=DDICT(ev=LISTN(L, L), other=LISTN(L)))
 EM3 = OBJECT('hotxlfp.tinyemitter:Emitter', _e=DDICT(ev=LISTN(L, L, L), other=LISTN(L)))
+# listeners under names that look special ('*', the empty name, another spelling of the emitted name): names are plain keys
+EM1S = OBJECT('hotxlfp.tinyemitter:Emitter', _e=DDICT(**{'ev': LISTN(L), 'other': LISTN(L), '*': LISTN(L), '': LISTN(L), 'EV': LISTN(L), 'ev ': LISTN(L), 'all': LISTN(L)}))
 # listeners with bound contexts (keyword arguments of their own)
 LA = OBJECT('hotxlfp.tinyemitter:Listener', fn=HOSTFN, ctx=CONST({'a': 1}))
 LB = OBJECT('hotxlfp.tinyemitter:Listener', fn=HOSTFN, ctx=CONST({'b': 2, 'c': 'x'}))
@@ -89,7 +91,7 @@ class Emitter_off:
 class Emitter_emit:
     args = dict(name=CONST('ev'))
     cases = [dict(self=EM0, args=TUPLE()), dict(self=EM1, args=TUPLE(VALUE_T)), dict(self=EM2, args=TUPLE(VALUE_T, VALUE_T)),
-             dict(self=EM3, args=TUPLE(VALUE_T)), dict(self=EM2C, args=TUPLE(VALUE_T)), dict(self=EM3C, args=TUPLE())]
+             dict(self=EM3, args=TUPLE(VALUE_T)), dict(self=EM2C, args=TUPLE(VALUE_T)), dict(self=EM3C, args=TUPLE()), dict(self=EM1S, args=TUPLE(VALUE_T))]
     no_native = True
 
     def havoc(self, name, args):
